@@ -11,7 +11,7 @@ by `load k`. `MerkleTree::reset` is modelled as the source states it: `Tree.rese
 `Gen.BinaryMerkle.resetZeroesLeavesCount`, regenerated from merkle_tree.rs on every run. On the
 code WITHOUT the one-line fix (repo-patches/fix-C11-reset-leaves-count.diff) the property is false:
 `reset_without_fix_breaks_*` below are the kernel-checked negative witnesses (DESIGN §6 F4), replayed
-on the real code by stream c11. `reset_fixed_in_source` is the proof obligation that the fix is present.
+on the real code by stream c11. `reset_fixed_in_source` (Props/C11Fix.lean) is the proof obligation that the fix is present.
 -/
 import FuelVerif.Lemmas.BinaryMerkle
 namespace FuelVerif.BMT
@@ -50,9 +50,6 @@ def C11Statement : Prop :=
   ∀ (H : HashFn), H [] = emptySum → ∀ (storage0 : Storage) (ops : List Op),
     ops.length < 2 ^ 63 → LoadsRecorded [] ops →
     ∃ t, Tree.runWith true H (Tree.new storage0) ops = .ok t ∧ FreshLike H (absRun [] ops) t
-
-/-- the fix is in the source: `MerkleTree::reset` zeroes `leaves_count` (regenerated flag) -/
-theorem reset_fixed_in_source : Gen.BinaryMerkle.resetZeroesLeavesCount = true := by decide
 
 /-- invariant of histories without reload: stack = MMR peaks of the abstract leaves, count = their number -/
 theorem run_inv (H : HashFn) : ∀ (ops : List Op) (L : List Bytes) (t : Tree),
